@@ -19,12 +19,13 @@ def assert_repo():
         raise SystemExit(f"statemachine imported from {f}, expected under {REPO}")
 
 
-def run_driver(lines):
-    """Pipe scenario lines to the Lean driver; returns {scenario name: [observation lines]}."""
-    if os.path.exists(DRIVER):
-        cmd = [DRIVER]
+def run_driver(lines, exe="driver", root="Driver.lean"):
+    """Pipe scenario lines to a Lean driver; returns {scenario name: [observation lines]}."""
+    path = os.path.join(LEAN, ".lake", "build", "bin", exe)
+    if os.path.exists(path):
+        cmd = [path]
     else:
-        cmd = ["lake", "env", "lean", "--run", "Driver.lean"]
+        cmd = ["lake", "env", "lean", "--run", root]
     p = subprocess.run(cmd, input="\n".join(lines) + "\n", capture_output=True, text=True, cwd=LEAN)
     if p.returncode != 0:
         raise RuntimeError(f"driver failed: {p.stderr[:2000]}")
